@@ -20,7 +20,16 @@
 //! Non-trivial: at least one variant's physical plan text differs from the baseline's and the result is
 //! non-empty. Deviation from DESIGN.md: no slt corpus pass, no source jitter scripts (MemTable sources only).
 //!
-//! Sensitivity probes: see the report of the orchestrator run (recorded below once executed).
+//! Known findings (open, /verif/known_findings.json, cases under /verif/regressions/C02/c02/):
+//!  * piecewise-merge-join-planner-unreachable — `enable_piecewise_merge_join=true` + a range join predicate with a
+//!    column-free operand → panic `entered unreachable code` in physical_planner.rs (`side_of`);
+//!  * smj-join-filter-index-out-of-bounds — `prefer_hash_join=false` + left join with join filter (decorrelated scalar
+//!    subquery) → panic in sort_merge_join/filter.rs:163 `index out of bounds`.
+//! Both are excluded by construction through `known_signature` (option present ∧ query shape).
+//!
+//! Sensitivity probes: not run for lack of machine time (each mutrun rebuild took ~30 min under the shared load);
+//! the C01 probes A/B (limit pushdown, filter pushdown) exercise the same comparison code. Candidates prepared in
+//! DESIGN.md §C02 (RepartitionExec hash seed per input partition; SortPreservingMergeExec final merge with fetch).
 use crate::c01;
 use proptest::prelude::*;
 use serde::{Deserialize, Serialize};
